@@ -1,14 +1,13 @@
 import OpcuaModel.Base.Loop
 import OpcuaModel.Model.ClientResp
-import OpcuaModel.Model.ClientRespRepairs
 /-
   Driver for C21.
     op  <op> <kind> <nReq> <results> <val> <chain> <flags> <notifs>  → <value|error|panic> <delivered|->
-    sig <op> <kind> <nReq> <results> <val> <chain> <flags> <notifs>  → <signature|->
       results : "-" or letters g (Good) / b (Bad), one per result
-      val     : "absent" | <tid>:s | <tid>:a<len>      tid ∈ null byte sbyte int32 qname ltext string double
+      val     : "absent" | <tid>:s | <tid>:a<len>      tid ∈ null byte sbyte int32 qname ltext string double extobj extobjNoBody
       chain   : "-" or kind:n,kind:n,…                 (the BrowseNext answers)
       flags   : "-" or letters z (subscription id 0) d (duplicate id) u (unknown item id) k (publish: unknown subscription)
+                p / P (publish: 1 / 2 acknowledgements pending)
       notifs  : "-" or letters d e s o n               (dataChange event statusChange otherType noBody)
       delivered (publish only): letters v (value) / e (error) in delivery order
 -/
@@ -16,11 +15,13 @@ open Opcua Opcua.ClientResp
 
 def kind? : String → Option Kind
   | "ok" => some .ok | "badStatus" => some .badStatus | "fault" => some .fault | "wrongType" => some .wrongType
+  | "notResponse" => some .notResponse
   | _ => none
 
 def tid? : String → Option Tid
   | "null" => some .null | "byte" => some .byte | "sbyte" => some .sbyte | "int32" => some .int32
   | "qname" => some .qname | "ltext" => some .ltext | "string" => some .string | "double" => some .double
+  | "extobj" => some .extobj | "extobjNoBody" => some .extobjNoBody
   | _ => none
 
 def op? : String → Option Op
@@ -82,14 +83,14 @@ def handle : List String → String
     | some op, some k, some nReq, some rs, some v, some ch, some nf =>
       let has (c : Char) : Bool := fl.toList.contains c
       let s : Shape := { kind := k, nReq := nReq, results := rs, val := v, chain := ch,
-                         subIdZero := has 'z', subIdDup := has 'd', idsKnown := !has 'u', subKnown := !has 'k', notifs := nf }
+                         subIdZero := has 'z', subIdDup := has 'd', idsKnown := !has 'u', subKnown := !has 'k', notifs := nf,
+                         pendingAcks := if has 'P' then 2 else if has 'p' then 1 else 0 }
       let deliv :=
         if op == .publish then
           let d := publishDelivered s
           if d.isEmpty then "-" else String.ofList (d.map fun b => if b then 'v' else 'e')
         else "-"
-      if cmd == "op" then s!"{outcomeName (outcomeR repairedSigs op s)} {deliv}"
-      else if cmd == "sig" then (sigOf op s).getD "-"
+      if cmd == "op" then s!"{outcomeName (outcome op s)} {deliv}"
       else "bad-op"
     | _, _, _, _, _, _, _ => "bad-op"
   | _ => "bad-op"
